@@ -38,6 +38,10 @@ def reweight (t : Table) (s : Str) : Table := mapWeights (fun _ x _ => (countCod
 def codeOf (t : Table) : List Str × List Str × List (Str × List Str) :=
   (t.startCodons, t.stopCodons, t.aminoAcids.map fun a => (a.letter, a.codons.map (·.triplet)))
 
+/-- the ids of the NCBI genetic codes the property speaks about (typed from the NCBI list, not regenerated: an id the
+code answers in addition, e.g. an alias, is outside the property) -/
+def ncbiIds : List Nat := [1, 2, 3, 4, 5, 6, 9, 10, 11, 12, 13, 14, 16, 21, 22, 23, 24, 25, 26, 27, 28, 29, 30, 31, 33]
+
 /-! ## histories on values -/
 
 structure VState where
